@@ -2,6 +2,7 @@ import LlgVerif.Model.Svob
 import LlgVerif.Model.Ffi
 import LlgVerif.Model.Trie
 import LlgVerif.Model.Cache
+import LlgVerif.Spec.Regex
 import Driver.Util
 open LlgVerif Drv
 
@@ -18,21 +19,22 @@ structure St where
   rb : RState Nat := { tokens := [], llmBytes := [], pBytes := [], byteTok := [], lexStack := [0], stopOk := false }
   rbVocab : List (Nat × List UInt8) := []
   rbEos : List Nat := []
+  rxs : List (Nat × LlgVerif.Dfa) := []
 
 /-- DFA over byte classes: `cls[b]` in `0..k`, `trans[q*k + c]` = successor, `≥ n` = dead. -/
-structure Dfa where
+structure TDfa where
   k : Nat
   n : Nat
   cls : Array Nat
   trans : Array Nat
 
-def Dfa.toRec (d : Dfa) : Rec Nat where
+def TDfa.toRec (d : TDfa) : Rec Nat where
   step := fun q b =>
     let c := d.cls[b.toNat]!
     let q' := d.trans[q * d.k + c]!
     if q' < d.n then some q' else none
 
-def parseDfa? (k n cls trans : String) : Option Dfa := do
+def parseDfa? (k n cls trans : String) : Option TDfa := do
   let k ← parseNat? k
   let n ← parseNat? n
   let cls ← parseNatList? cls
@@ -166,6 +168,61 @@ def handleRb (st : St) (args : List String) : St × String :=
     | none => (st, "bad-op")
   | _ => (st, "bad-op")
 
+def parseRanges? (s : String) : Option (List (Nat × Nat)) :=
+  if s = "-" then some [] else
+  (s.splitOn ",").mapM (fun p => match p.splitOn ":" with
+    | [a, b] => do pure ((← a.toNat?), (← b.toNat?))
+    | _ => none)
+
+def litRx (bs : List UInt8) : Rx :=
+  bs.foldr (fun b acc => Rx.mkCat (Rx.set [(b.toNat, b.toNat)]) acc) Rx.eps
+
+/-- byte-level regex s-expression -> `Rx` (n-ary `cat`/`alt`/`and` fold to the right) -/
+partial def rxOfSexp : SExp → Option Rx
+  | .list [.atom "empty"] => some Rx.empty
+  | .list [.atom "eps"] => some Rx.eps
+  | .list [.atom "set", .atom rs] => (parseRanges? rs).map Rx.set
+  | .list [.atom "lit", .atom h] => (parseHex? h).map litRx
+  | .list (.atom "cat" :: xs) => do
+      let rs ← xs.mapM rxOfSexp
+      pure (rs.foldr Rx.cat Rx.eps)
+  | .list (.atom "alt" :: xs) => do
+      let rs ← xs.mapM rxOfSexp
+      match rs.reverse with
+      | [] => pure Rx.empty
+      | last :: more => pure (more.foldl (fun acc r => Rx.alt r acc) last)
+  | .list [.atom "and", a, b] => do pure (Rx.and (← rxOfSexp a) (← rxOfSexp b))
+  | .list [.atom "not", a] => do pure (Rx.not (← rxOfSexp a))
+  | .list [.atom "star", a] => do pure (Rx.star (← rxOfSexp a))
+  | .list [.atom "rep", .atom m, .atom n, a] => do
+      let m ← m.toNat?
+      let r ← rxOfSexp a
+      if n = "inf" then pure (Rx.rep r m none) else do
+        let n ← n.toNat?
+        pure (Rx.rep r m (some n))
+  | _ => none
+
+def handleRx (st : St) (args : List String) : St × String :=
+  match args with
+  | "def" :: id :: rest =>
+    match parseNat? id, (parseSexp (" ".intercalate rest)).bind rxOfSexp with
+    | some id, some r =>
+      match buildDfa r 4000 with
+      | some d =>
+        if Dfa.check r d then ({ st with rxs := (id, d) :: st.rxs.filter (·.1 ≠ id) }, s!"ok {d.states.size}")
+        else (st, "bad-cert")
+      | none => (st, "fuel")
+    | _, _ => (st, "bad-op")
+  | ["qs", id, ws] =>
+    match parseNat? id, parseHexList? ws with
+    | some id, some ws =>
+      match st.rxs.find? (·.1 = id) with
+      | some (_, d) =>
+        (st, "ok " ++ String.join (ws.map (fun w => showBool (d.accepts w) ++ showBool (d.viable w))))
+      | none => (st, "no-such-rx")
+    | _, _ => (st, "bad-op")
+  | _ => (st, "bad-op")
+
 def handleTrie (st : St) (args : List String) : St × String :=
   match args with
   | ["build", ws] =>
@@ -219,6 +276,7 @@ def step (st : St) (line : String) : St × String :=
   | "trie" :: args => handleTrie st args
   | "svob" :: args => handleSvob st args
   | "cache" :: args => handleCache st args
+  | "rx" :: args => handleRx st args
   | "rb" :: args => handleRb st args
   | ["reset"] => ({}, "ok")
   | _ => (st, "bad-op")
